@@ -291,8 +291,12 @@ def run(env, res, case, monitors):
         rng0 = random.Random(f"{case['vseed']}:start")
         dtype = gens.dt(st['numtype'], st['bo'])
         ref = gens.random_values(rng0, dtype, tuple(st['shape']))
+        import zlib
+        layout = ['C', 'C', 'strided', 'F', 'negstride', 'transposed'][zlib.crc32(('lay' + str(case['vseed'])).encode()) % 6]
+        res.dim('source_layout', layout)
         try:
-            a = D.asarray(apipath, ref.copy(), accessmode='r+', chunklen=st.get('chunklen', 2))
+            # the history starts from an input of some memory layout (equal in value): the on-disk order is C whatever it was
+            a = D.asarray(apipath, gens.relayout(ref.copy(), layout), accessmode='r+', chunklen=st.get('chunklen', 2))
         except Exception as e:
             res.fail(f'start:creation-raised:{type(e).__name__}',
                      f'asarray({"<symlink>/../arr" if apipath != path else "arr"}, {describe(ref)}) raised '
